@@ -57,6 +57,8 @@ LEVEL_TEXT = (
 LEVEL_NOTE = ("Trusted: bash 5.2 itself (observer chunk uses only quoted expansions and printf), /usr/bin/env. "
               "No proof of absence; value length is bounded (<= ~40 tokens).")
 RULE = (
+    "first a deterministic family (single quote paired with every special character / executable payload, each special "
+    "alone, multi-line payloads via embedded newline or the non-exported marker, x transports), then hypothesis: "
     "env = 1..5 harness-prefixed names -> str | list/tuple of str, text built from a token alphabet (' \" \\ $ ` newline "
     "tab ! * ; & | < > ( ) { } # ~ space, escapes like \\n \\' \\\\ $'..' $(echo q) `echo q`, control chars, BMP and "
     "astral non-ASCII), optional PKGCORE_NONEXPORTED_VARS subset; transport in inline/file/depend; non-trivial = some "
@@ -73,7 +75,8 @@ ASSUMPTIONS = [
 ]
 BUDGET = {"quick": 50, "thorough": 900}
 
-TIMEOUT = 90  # generous: the machine may be heavily loaded; a hit is classified by byte accounting
+TIMEOUT = 60  # generous: the machine may be heavily loaded; a hit is classified by byte accounting
+SHORT_TIMEOUT = 30  # single-line protocol replies (`yep!`, `phases failed`) once a session is up
 
 SPECIALS = "'\"\\$`\n\t!*;&|<>(){}#~ []?="
 # letters chosen so that no concatenation spells an existing command (values may get executed by a
@@ -192,18 +195,19 @@ class Daemon:
 
 
 def observer_code(names, out, envout):
-    # ASCII only; quoted expansions only; independent of IFS
+    """ASCII only; quoted expansions only; independent of IFS; ONE line without any newline, so that the harness
+    chunk does not depend on how the daemon reads multi-line payloads (that is pkgcore's business, tested with
+    pkgcore's own payloads)"""
     return (
-        "{ for __vt_n in " + " ".join(names) + "; do\n"
-        "if ! declare -p \"${__vt_n}\" >/dev/null 2>&1; then printf 'U\\0%s\\0' \"${__vt_n}\"; continue; fi\n"
-        "__vt_d=$(declare -p \"${__vt_n}\"); __vt_d=${__vt_d#declare -}; __vt_d=${__vt_d%% *}\n"
-        "declare -n __vt_r=${__vt_n}\n"
-        "printf 'V\\0%s\\0%s\\0%s\\0' \"${__vt_n}\" \"${__vt_d}\" \"${#__vt_r[@]}\"\n"
-        "if [[ ${#__vt_r[@]} -gt 0 ]]; then printf '%s\\0' \"${!__vt_r[@]}\"; printf '%s\\0' \"${__vt_r[@]}\"; fi\n"
-        "unset -n __vt_r\n"
-        "done; printf 'E\\0'; } > '" + out + "' 2>&1\n"
-        + (f"/usr/bin/env -0 > '{envout}' 2>&1\n" if envout else "")
-        + "unset -v __vt_n __vt_d\n:\n"
+        "{ for __vt_n in " + " ".join(names) + "; do "
+        "if ! declare -p \"${__vt_n}\" >/dev/null 2>&1; then printf 'U\\0%s\\0' \"${__vt_n}\"; continue; fi; "
+        "declare -n __vt_r=${__vt_n}; "  # ${ref@a}: attribute letters of the target, no fork
+        "printf 'V\\0%s\\0-%s\\0%s\\0' \"${__vt_n}\" \"${__vt_r@a}\" \"${#__vt_r[@]}\"; "
+        "if [[ ${#__vt_r[@]} -gt 0 ]]; then printf '%s\\0' \"${!__vt_r[@]}\"; printf '%s\\0' \"${__vt_r[@]}\"; fi; "
+        "unset -n __vt_r; "
+        "done; printf 'E\\0'; } > '" + out + "' 2>&1; "
+        + (f"/usr/bin/env -0 > '{envout}' 2>&1; " if envout else "")
+        + "unset -v __vt_n; :"
     )
 
 
@@ -345,14 +349,23 @@ def check_env(ctx, dm: Daemon, case, record=True):
     if transport == "depend":
         return _check_depend(ctx, dm, case, env, names, out, viol, symptom, reported)
 
-    sess = ebd.Session(ebp, timeout=TIMEOUT)
-    try:
-        sess.__enter__()
-        if not sess.run_code(f"cd '{dm.cwd}' || exit 9\n"):
-            raise core.HarnessError("daemon refused the harness cd chunk")
-    except ebd.EbdHang as e:
-        dm.kill()
-        raise core.HarnessError(f"fresh session did not answer: {e}") from None
+    for attempt in (0, 1):
+        sess = ebd.Session(ebp, timeout=TIMEOUT)
+        try:
+            sess.__enter__()
+            if not sess.run_code(f"cd '{dm.cwd}' || exit 9"):
+                raise core.HarnessError("daemon refused the harness cd chunk")
+            break
+        except ebd.EbdHang as e:
+            dm.kill()
+            raise core.HarnessError(f"fresh session did not answer: {e}") from None
+        except (RuntimeError, OSError) as e:  # broken pipe: the daemon is gone before this case did anything
+            dm.kill()
+            if attempt:
+                raise core.HarnessError(f"cannot start a session on a fresh daemon: {e}") from None
+            ctx.count("daemon_found_dead_at_case_start")
+            ebp = dm.get()
+            tee = ebp.ebd_write
 
     tee.rec = []
     ok = None
@@ -361,9 +374,11 @@ def check_env(ctx, dm: Daemon, case, record=True):
         try:
             with _AccountingAlarm(tee, "start_receiving_env bytes ", "send_env reply"):
                 ok = core.guarded(ctx, case, lambda: ebp.send_env(env, tmpdir=dm.cwd if transport == "file" else None),
-                                  expected=(ebd.EbdHang,))
+                                  expected=(ebd.EbdHang,) + _PROTOCOL_ERRORS())
         except ebd.EbdHang as e:
             hang = e
+        except _PROTOCOL_ERRORS() as e:  # pkgcore relaying the daemon's `dying ...` notice and the like
+            ok = f"{type(e).__name__}: {str(e)[:200]}"
     finally:
         written = "".join(tee.rec)
         tee.rec = None
@@ -391,58 +406,77 @@ def check_env(ctx, dm: Daemon, case, record=True):
         # nothing after a wrong count can be trusted (left-over bytes become the next "command")
         dm.kill()
         return reported
-    if hang is not None:
-        dm.kill()
-        # count right (or file transport): pkgcore's text made the daemon block, or the harness is too slow
-        raise core.HarnessError(f"{hang}; byte count was right - cannot attribute (case {core.jdump(case)[:300]})")
-    if ok is not True:
-        symptom("rejected", f"send_env returned {ok!r} for an in-domain environment")
-        # the daemon normally leaves the phase sub-shell and reports `phases failed ...`; reuse it if so
+    # ---- pkgcore's own exchange, byte count right (or file transport).  No harness-written chunk has been sent since
+    # the (acknowledged) `cd`, so a failure, a hang or a dead daemon here is exactly what the statement forbids.
+    if transport == "file":
         try:
-            with ebd.alarm(TIMEOUT, "phases failed line"):
-                line = ebp.read()
-            if not (line.startswith("phases failed") and _main_loop_alive(ebp)):
-                dm.kill()
-        except Exception:  # noqa: BLE001  (any trouble: just take a new daemon)
-            dm.kill()
+            with open(os.path.join(dm.cwd, "ebd-env-transfer"), encoding="utf8") as f:
+                payload = f.read()
+        except OSError:
+            payload = ""
+    pclass = "multiline-payload" if "\n" in payload else culprit
+
+    def transfer_failed(kind, detail):
+        risky = (culprit.startswith("seq-element") and not culprit.endswith(":plain")) or culprit.startswith("scalar-with")
+        bucket = f"quoting:{culprit}" if risky and kind == "rejected" else f"transfer-failed:{transport}:{pclass}"
+        viol(bucket, f"[{transport}] {kind}: {detail}; payload {payload[:120]!r}; daemon stderr: {dm.stderr_tail()!r}")
+
+    if hang is not None:
+        transfer_failed("hang", f"send_env got no reply although the announced byte count was right ({hang})")
+        dm.kill()
+        return reported
+    if ok is not True:
+        transfer_failed("rejected", f"send_env returned {ok!r} for an in-domain environment")
+        dm.kill()  # left-over bytes of a partly read payload may still be in the pipe: never reuse this daemon
+        return reported
+    # "the daemon answers the next request": pkgcore-protocol `alive`, still before any further harness chunk
+    try:
+        with ebd.alarm(SHORT_TIMEOUT, "alive reply right after the transfer"):
+            ebp.write("alive")
+            answered = ebp.expect("yep!", flush=True)
+        why = "answered with something else than `yep!`"
+    except (ebd.EbdHang, RuntimeError, OSError) + _PROTOCOL_ERRORS() as e:
+        answered, why = False, f"{type(e).__name__}: {str(e)[:300]}"
+    if not answered:
+        viol(f"daemon-unresponsive-after-transfer:{transport}:{pclass}",
+             f"[{transport}] send_env returned True but the next request (`alive`) was not answered: {why}; "
+             f"payload {payload[:120]!r}; daemon stderr: {dm.stderr_tail()!r}")
+        dm.kill()
         return reported
 
-    # ---- observe
+    # ---- observe (harness chunk; pkgcore's part completed normally and the channel was in sync: trouble here is ours)
     try:
         if not sess.run_code(observer_code(names, out, envout)):
-            if count_ok:
-                symptom("desync-after-transfer", "observer chunk not acknowledged after send_env returned True")
-            dm.kill()
-            return reported
+            raise core.HarnessError("observer chunk not acknowledged although the channel was in sync")
         with open(out, "rb") as f:
             obs = parse_observation(f.read())
         with open(envout, "rb") as f:
             child = _parse_env0(f.read())
     except (ebd.EbdHang, ValueError, OSError) as e:
-        if count_ok:
-            symptom("desync-after-transfer", f"could not observe the shell after the transfer: {e}")
         dm.kill()
-        return reported
+        raise core.HarnessError(f"could not observe the shell after a completed transfer: {e} "
+                                f"(case {core.jdump(case)[:300]}; daemon stderr {dm.stderr_tail()!r})") from None
     compare(case, obs, child, viol, transport)
 
-    # ---- channel still synchronised
+    # ---- channel still synchronised: session end and main loop (pkgcore protocol requests)
     try:
-        if not sess.alive():
-            if count_ok:
-                symptom("desync-after-transfer", "`alive` not answered with `yep!`")
-            dm.kill()
-            return reported
         if not sess.close():
             symptom("desync-after-transfer", "session end not answered with `phases succeeded`")
             dm.kill()
         elif not _main_loop_alive(ebp):
             symptom("desync-after-transfer", "daemon main loop does not answer `alive` after the session")
             dm.kill()
-    except (ebd.EbdHang, RuntimeError, OSError) as e:
-        if count_ok:
-            symptom("desync-after-transfer", str(e))
+    except (ebd.EbdHang, RuntimeError, OSError) + _PROTOCOL_ERRORS() as e:
+        symptom("desync-after-transfer", f"{type(e).__name__}: {str(e)[:300]}")
         dm.kill()
     return reported
+
+
+def _PROTOCOL_ERRORS():
+    """pkgcore's own exceptions for a daemon that refuses, garbles or dies (`dying`/`SIGTERM` notices)"""
+    from pkgcore.ebuild import processor
+
+    return (processor.ProcessorError, processor.ProcessingInterruption)
 
 
 def _announced_vs_sent(written, prefix):
@@ -484,8 +518,8 @@ class _AccountingAlarm:
         return False
 
 
-def _main_loop_alive(ebp):
-    with ebd.alarm(TIMEOUT, "main loop alive reply"):
+def _main_loop_alive(ebp, timeout=None):
+    with ebd.alarm(timeout or TIMEOUT, "main loop alive reply"):
         ebp.write("alive")
         return ebp.expect("yep!", flush=True)
 
@@ -604,15 +638,23 @@ def _check_depend(ctx, dm, case, env, names, out, viol, symptom, reported):
     if not count_ok:
         dm.kill()
         return reported
+    # pkgcore's own exchange (no harness chunk is ever sent on this path)
+    culprit = _first_risky(case["items"])
+    # the constant part (PKGCORE_EBUILD_PHASES ... on the export line) is single-line; what the case adds decides
+    pclass = "multiline-payload" if payload.count("\n") else culprit
+    risky = (culprit.startswith("seq-element") and not culprit.endswith(":plain")) or culprit.startswith("scalar-with")
     if hang is not None:
+        viol(f"transfer-failed:depend:{pclass}", f"[depend] hang: gen_metadata got no reply although the announced byte "
+             f"count was right ({hang}); daemon stderr: {dm.stderr_tail()!r}")
         dm.kill()
-        raise core.HarnessError(f"{hang}; byte count was right - cannot attribute (case {core.jdump(case)[:300]})")
+        return reported
     if res is not True:
-        if count_ok:
-            if core.crashed(res):
-                reported.add("crash")
-            else:
-                symptom("rejected", f"metadata run failed: {type(res).__name__}: {str(res)[:200]}")
+        if core.crashed(res):
+            reported.add("crash")
+        else:
+            viol(f"quoting:{culprit}" if risky else f"transfer-failed:depend:{pclass}",
+                 f"[depend] rejected: metadata run failed: {type(res).__name__}: {str(res)[:200]}; "
+                 f"daemon stderr: {dm.stderr_tail()!r}")
         dm.kill()
         return reported
     try:
@@ -642,19 +684,67 @@ def _check_depend(ctx, dm, case, env, names, out, viol, symptom, reported):
 
 # ---------------------------------------------------------------------------------------------
 
+def family_cases():
+    """small deterministic family that runs first: a single quote paired with every other special character / every
+    executable payload, each special alone, multi-line payloads (embedded newline; the non-exported marker puts the
+    plain assignments on a line of their own), over the transports"""
+    specials = list("'\"\\$`\n\t!*;&|<>(){}#~ []?=") + ["\r", "\x01", "\u00e9"]
+    payloads = ["`echo q`", "$(echo q)", "$Q", "${Q}", "$((1+1))", "\\n", "\\x41", "$'", "\\'", "\\\\"]
+    first = ["don't run `echo q`", "it's $(echo q)", "a\nb", "a\n", "\n", "a'\nb", "l1\nl2\nl3", "it's a \\n test"]
+    vals = list(first)
+    for c in payloads + specials:
+        vals += ["a'" + c + "b", "don't " + c + c, c, "x" + c + "y"]
+    seen, out = set(), []
+
+    def add(transport, items, marker="absent-if-possible"):
+        case = {"transport": transport, "items": items, "marker": marker, "tuples": False}
+        k = core.jdump(case)
+        if k not in seen:
+            seen.add(k)
+            out.append(case)
+
+    for tr in ("inline", "file", "depend"):  # multi-line through the marker, and a newline value next to it
+        add(tr, [["VT_a", "x", False], ["VT_b", "y z", True]], "auto")
+        add(tr, [["VT_a", "x y", False]], "auto")
+        add(tr, [["VT_a", "p\nq", False], ["VT_b", ["r", "s t"], True]], "auto")
+    for v in vals:
+        for tr in ("inline", "file"):
+            add(tr, [["VT_a", v, True]])
+    for v in first:
+        add("depend", [["VT_a", v, True]])
+    for c in payloads + [x for x in specials if x not in ("\x01",)]:
+        for tr in ("inline", "file"):
+            add(tr, [["VT_a", ["a" + c + "b", "'" + c], True]])
+    return out
+
+
 def plan(tier, seed):
+    fam = [{"task": "family", "slice": i, "nslices": 4} for i in range(4)]
     # ~20-40 ms per environment on an idle machine (one phase session, three harness chunks, one child process)
     if tier == "quick":
-        return [{"task": "hyp", "examples": 160, "transports": tr}
-                for tr in (["inline"], ["file"], ["inline", "file"], ["depend"]) for _ in range(4)]
-    return [{"task": "hyp", "examples": 1500, "transports": tr}
-            for tr in (["inline"], ["file"], ["inline", "file"], ["depend"]) for _ in range(8)]
+        return fam + [{"task": "hyp", "examples": 160, "transports": tr}
+                      for tr in (["inline"], ["file"], ["inline", "file"], ["depend"]) for _ in range(3)]
+    return fam + [{"task": "hyp", "examples": 1500, "transports": tr}
+                  for tr in (["inline"], ["file"], ["inline", "file"], ["depend"]) for _ in range(8)]
 
 
 def run_task(ctx, task, **kw):
-    if task != "hyp":
+    if task not in ("hyp", "family"):
         raise core.HarnessError(f"unknown task {task}")
     dm = Daemon(ctx)
+    if task == "family":
+        try:
+            cases = family_cases()
+            ctx.note("family_size", len(cases))
+            for i, c in enumerate(cases):
+                if i % kw["nslices"] == kw["slice"]:
+                    if ctx.out_of_time():
+                        break
+                    check_env(ctx, dm, c)
+            ctx.count("daemons_spawned", dm.spawned)
+        finally:
+            dm.kill()
+        return
 
     def one(c):
         if not ctx.out_of_time():  # wall-clock guard also inside a chunk (cases can take seconds on a loaded machine)
